@@ -21,30 +21,40 @@ LEVEL_NOTE = ("Model fidelity is checked, not proved. Layered correspondence: th
               "the evaluation frequencies, pump walk-off angle, k_eff, apodisation weights at the nodes; for `jsa` also the value of "
               "jsa_raw; for `counts_corr` the group indices). The singles phase-matching function (2-D integral) is a parameter of the "
               "theorems and is exercised only by the predicate search. Non-vanishing of A1..A4/denominators is a hypothesis.")
-LEVEL_NOTE += ' COMPOSED MODEL (notes/compose.md): the cmp_* K ops are NOT layered — their K line carries only the primitive setup (crystal id, angles, length, temperature, PM type, wavelengths, internal signal/idler angles, waists, waist positions, bandwidth, power, threshold, deff, signed poling period + window) and Spdc.Model.Compose recomputes the printed quantity through every layer model (Crystals → Index → Beam/Units → DeltaK → Poling → PM → Quad → Norm/Jsa → Singles); the real side is an SPDC rebuilt from exactly these primitives by Beam::new / PumpBeam::from / PeriodicPoling::new / SPDC::new (+ assign_optimum_idler for idler "auto"). Outside the composition (their RESULTS are primitives): Snell inverse, optimum_theta, optimum_poling_period.'
 OPS = {"swap", "pm_inverse", "jsa", "pm_integrand", "pm_coinc", "pm_coinc_gl", "norms", "counts_corr"}
 TOL = {"pm_integrand": ("crel", 1e-11), "pm_coinc": ("csum", 1e-10), "pm_coinc_gl": ("csum", 1e-10), "jsa": ("rel", 1e-11), "norms": ("rel", 1e-11),
        "counts_corr": ("rel", 1e-12)}
-# COMPOSED end-to-end model (Model/Compose.lean, notes/compose.md): primitive setup only on the K line; the model recomputes
-# indices, angles, walk-off, k_eff, apodisation AND the integrand / Simpson z-integral from them.  Observed worst:
-# integrand 6.3e-16 of the modulus, z-integral 3.9e-16 of the absolute quadrature sum (3 × 3000 setups).
-OPS |= {"cmp_integrand", "cmp_pm_coinc"}
-TOL.update({"cmp_integrand": ("crel", 5e-14), "cmp_pm_coinc": ("csum", 5e-14)})
 DEFAULT_TOL = ("exact",)
 RULE = ("family pm/k: random general setups (11 crystals × 5 PM types, non-collinear signal up to 3° external with arbitrary azimuth, "
         "optimum or arbitrary idler, unequal waists 15–400 µm, elliptical pump, waist positions, poled/unpoled with every apodisation "
         "kind, a quarter phase-matched by the crate's own optimum calls, a quarter plane-wave) × 2 frequency pairs: integrand at 5 z, "
         "Simpson z-integral for several divs, normalisations, swap record; family pm/c06: asymmetric setups × 4 frequency pairs in the "
         "pump-allowed region (setup vs exchanged twin: jsa, jsi), every other setup a 3×3 (5×5 thorough) grid for rates and singles")
-RULE += ' | family compose/c06: the same primitive-setup generator as compose/c03 × 2 frequency pairs (centre, detuned): get_pm_integrand at z = −1, 1, 0 and two random z; phasematch_fiber_coupling for Simpson divs ∈ {6,7,10,20,33,50,100}'
 RESIDUAL = ("floating-point rounding (measured: |jsa_S − jsa_swap| ≤ ~1e-10·|jsa|); non-vanishing of A1..A4, denom1, denom2 is a "
             "hypothesis of the theorems and checked by evaluation only; the singles integrand is not modelled")
 TRUSTED_EXTRA = ["tools/props/_pmtol.py: complex-aware comparison (|Δ| relative to the modulus / to the absolute quadrature sum)"]
-CHECKER_MODULES = ["Spdc.Real.PM", "Spdc.Real.Jsa", "Spdc.Real.ComposeLemmas"]
+CHECKER_MODULES = ["Spdc.Real.PM", "Spdc.Real.Jsa"]
 
 
 def families(tier, seed):
     if tier == "quick":
-        return [("pm", seed, 1500, ["k"]), ("pm", seed, 1500, ["c06"]), ("compose", seed, 3000, ["c06"])]
-    return [("pm", seed, 4000, ["k"]), ("pm", seed + 1000, 4000, ["k"]), ("pm", seed, 3000, ["c06"]),
-            ("compose", seed, 30000, ["c06"])]
+        return [("pm", seed, 1500, ["k"]), ("pm", seed, 1500, ["c06"])]
+    return [("pm", seed, 4000, ["k"]), ("pm", seed + 1000, 4000, ["k"]), ("pm", seed, 3000, ["c06"])]
+
+
+# ------------------------------------------------------------------------------------------------------------------------------
+# COMPOSED end-to-end model (branch compose; Model/Compose.lean, notes/compose.md) — purely additive block.
+# Primitive setup only on the K line; the model recomputes indices, angles, walk-off, k_eff, apodisation AND the integrand /
+# Simpson z-integral from them.  Observed worst: integrand 6.3e-16 of the modulus, z-integral 3.9e-16 of the absolute
+# quadrature sum (3 seeds × 3000 setups).
+OPS = set(OPS) | {"cmp_integrand", "cmp_pm_coinc"}
+TOL = dict(TOL)
+TOL.update({"cmp_integrand": ("crel", 5e-14), "cmp_pm_coinc": ("csum", 5e-14)})
+RULE += ' | family compose/c06: the same primitive-setup generator as compose/c03 × 2 frequency pairs (centre, detuned): get_pm_integrand at z = −1, 1, 0 and two random z; phasematch_fiber_coupling for Simpson divs ∈ {6,7,10,20,33,50,100}'
+LEVEL_NOTE += ' COMPOSED MODEL (notes/compose.md): the cmp_* K ops are NOT layered — their K line carries only the primitive setup (crystal id, angles, length, temperature, PM type, wavelengths, internal signal/idler angles, waists, waist positions, bandwidth, power, threshold, deff, signed poling period + window) and Spdc.Model.Compose recomputes the printed quantity through every layer model (Crystals → Index → Beam/Units → DeltaK → Poling → PM → Quad → Norm/Jsa → Singles); the real side is an SPDC rebuilt from exactly these primitives by Beam::new / PumpBeam::from / PeriodicPoling::new / SPDC::new (+ assign_optimum_idler for idler "auto"). Outside the composition (their RESULTS are primitives): Snell inverse, optimum_theta, optimum_poling_period.'
+CHECKER_MODULES = list(CHECKER_MODULES) + ["Spdc.Real.ComposeLemmas"]
+_families_layered = families
+
+
+def families(tier, seed):
+    return _families_layered(tier, seed) + [("compose", seed, 3000 if tier == "quick" else 30000, ["c06"])]
